@@ -28,7 +28,8 @@ RULE = ("configurations = (messages per queueing thread for 1..3 threads on 1..2
         "demand_attention / send_message / the write branch of _handle_connections / the AVP loop of Message.as_bytes, or a non-default "
         "pick at a blocking point - enumerated exhaustively; random schedules with up to 8 deviations. "
         "Non-trivial: >= 1 deviation; distinct by (configuration, schedule).")
-ASSUME = ["queueing order = observed order of Queue.put() on the connection's message queue",
+ASSUME = ["SCTP configurations: the connection is switched to SCTP after its (TCP) handshake and the virtual socket offers sctp_send with send()'s contract; pysctp itself is not installed",
+          "queueing order = observed order of Queue.put() on the connection's message queue",
           "preemption granularity: source line and Python-level call, plus the inside of the virtual send() (which keeps the caller's buffer exported meanwhile, as the system call does); other switches inside C code are not modelled",
           "soft write errors leave the socket writable (the node retries in its next loop turn)",
           "the expected encoding of each message is computed with the library encoder before queueing (C02's subject)"]
@@ -47,6 +48,9 @@ CONFIGS = [
     {"name": "6msgs", "threads": [3, 3], "plan": [100, ["soft", errno.EAGAIN], 1, 200], "bad": None},
     {"name": "3msgs-one-unencodable/none-in-avp-list", "threads": [3], "plan": [33], "bad": 1, "bad_kind": "none-in-avp-list"},
     {"name": "3msgs-one-unencodable/header-out-of-range", "threads": [2, 1], "plan": [50], "bad": 0, "bad_kind": "header-out-of-range"},
+    # the SCTP arm of the I/O loop's write branch (the connection is marked SCTP, the virtual socket offers sctp_send)
+    {"name": "sctp-2threads", "threads": [2, 1], "plan": [7, 1, ["soft", errno.EAGAIN], 33, 20, ["soft", errno.ENOBUFS], 150], "bad": None, "sctp": True},
+    {"name": "sctp-3msgs", "threads": [3], "plan": [64], "bad": 1, "sctp": True},
     # two connections: their writers encode at the same time (queueing thread i serves connection i % 2)
     {"name": "2conns-1each", "threads": [1, 1], "plan": [40], "bad": None, "conns": 2},
     {"name": "2conns-2each", "threads": [2, 2], "plan": [9, ["soft", errno.EAGAIN], 120], "bad": None, "conns": 2},
@@ -80,6 +84,13 @@ def run_schedule(cfg, decisions=None, rng=None, p=0.0, maxr=0):
         ncs = [w.node_conn_for(c) for c in cs]
         bases = [len(c.remote.received()) for c in cs]
         c, nc = cs[0], ncs[0]
+        if cfg.get("sctp"):
+            import types
+            nm = w.mods["node"]
+            if getattr(nm, "sctp", None) is None:
+                nm.sctp = types.SimpleNamespace(MSG_UNORDERED=0x1)     # pysctp is not installed here
+            for x in ncs:
+                x.socket_proto = w.mods["peer"].PEER_TRANSPORT_SCTP
         sock = c.remote.sock
         for step in cfg["plan"]:
             sock.tx_plan.append(tuple(step) if isinstance(step, list) else step)
@@ -207,7 +218,7 @@ def run(tier, scale=1.0):
         rec.merge(d)
     required = {"deviations:2": 1, "random": 1, "cfg:3threads": 1, "cfg:6msgs": 1, "cfg:2msgs-soft-errors": 1,
                 "cfg:3msgs-one-unencodable": 1, "cfg:2conns-1each": 1, "cfg:2conns-2each": 1, "cfg:3msgs-one-unencodable/none-in-avp-list": 1,
-                "cfg:3msgs-one-unencodable/header-out-of-range": 1}
+                "cfg:3msgs-one-unencodable/header-out-of-range": 1, "cfg:sctp-2threads": 1, "cfg:sctp-3msgs": 1}
     return finish(rec, tier=tier, level="exploration", rule=RULE, assumptions=ASSUME, t0=t0, exhaustive=True,
                   required_classes=required,
                   extra_cov={"exhaustive_part": "all schedules within the deviation bound for every listed configuration"})
